@@ -798,7 +798,7 @@ def record_c06(binary, tier, seed):
     steps.append({"op": "swap", "kind": "script"})
     # the model's "custom" failure stands for any error that is not EOF: concretised with the kinds of error real
     # sources return (temporary ones included), once followed by more data and once by the same failure for ever
-    kinds = ["EINTR", "EAGAIN", "temporary", "wrappedEOF", "noprogress", "shortbuffer", "closedpipe", "deadline", "custom", "EOF", "UEOF"]
+    kinds = ["EINTR", "EAGAIN", "temporary", "wrappedEOF", "noprogress", "shortbuffer", "closedpipe", "deadline", "custom", "EOF", "UEOF", "listerr"]
     for w in (12, 15, 18, 21, 24):
         need = w + w // 3
         for k in (0, 1, 5, need - 1):
